@@ -129,7 +129,7 @@ func journalFP(j *ast.Journal) []string {
 			d2 = fmt.Sprintf("=%04d-%02d-%02d", t.Date2.Year, t.Date2.Month, t.Date2.Day)
 		}
 		// trailing blanks may be lost by formatting (an unterminated code or quote keeps them in its value)
-		tr := func(x string) string { return strings.TrimRight(x, " \t") }
+		tr := func(x string) string { return strings.TrimRight(x, " \t\r") }
 		out = append(out, fmt.Sprintf("%shead|%04d-%02d-%02d%s|%s|%s|%s|%s|%s", p, t.Date.Year, t.Date.Month, t.Date.Day, d2, statusStr(t.Status), tr(t.Code), tr(t.Description), tr(t.Payee), tr(t.Note)))
 		for ci, cm := range t.Comments {
 			out = append(out, fmt.Sprintf("%scomment%d|%s|%s", p, ci, strings.TrimSpace(cm.Text), tagsFP(cm.Tags)))
@@ -157,13 +157,13 @@ func journalFP(j *ast.Journal) []string {
 		case ast.AccountDirective:
 			out = append(out, fmt.Sprintf("dir%d|account|%s|%s|%s", di, x.Account.Name, strings.TrimSpace(x.Comment), tagsFP(x.Tags)))
 		case ast.CommodityDirective:
-			out = append(out, fmt.Sprintf("dir%d|commodity|%s|%s", di, strings.TrimRight(x.Commodity.Symbol, " \t"), x.Format))
+			out = append(out, fmt.Sprintf("dir%d|commodity|%s|%s", di, strings.TrimRight(x.Commodity.Symbol, " \t\r"), strings.TrimRight(x.Format, " \t\r")))
 		case ast.PriceDirective:
 			out = append(out, fmt.Sprintf("dir%d|P|%04d-%02d-%02d|%s|%s", di, x.Date.Year, x.Date.Month, x.Date.Day, x.Commodity.Symbol, amtFP(&x.Price)))
 		case ast.YearDirective:
 			out = append(out, fmt.Sprintf("dir%d|Y|%d", di, x.Year))
 		case ast.DefaultCommodityDirective:
-			out = append(out, fmt.Sprintf("dir%d|D|%s|%s", di, strings.TrimRight(x.Symbol, " \t"), x.Format))
+			out = append(out, fmt.Sprintf("dir%d|D|%s|%s", di, strings.TrimRight(x.Symbol, " \t\r"), strings.TrimRight(x.Format, " \t\r")))
 		default:
 			out = append(out, fmt.Sprintf("dir%d|%T", di, d))
 		}
@@ -674,22 +674,28 @@ func MinimalFailingGeneric(feats []string, fails func(*MJournal) bool) []string 
 // textFeatures detects raw-text constructs (in damaged or hostile documents) that findings refer to.
 func textFeatures(text string) []string {
 	var out []string
+	seen := map[string]bool{}
 	lines := strings.Split(text, "\n")
 	for i := 0; i+1 < len(lines); i++ {
 		l := strings.TrimSuffix(lines[i], "\r")
 		if l != "" && strings.TrimLeft(l, " \t") == "" {
 			n := lines[i+1]
 			if strings.HasPrefix(n, " ") || strings.HasPrefix(n, "\t") {
-				out = append(out, "text.blank-line-then-indented")
-				break
+				if !seen["text.blank-line-then-indented"] {
+					seen["text.blank-line-then-indented"] = true
+					out = append(out, "text.blank-line-then-indented")
+				}
+				continue
 			}
 			// the same trimming below an indented line with more text to follow: the blanks-only line
 			// was part of the entry above (an indent token), the empty line it becomes is not
 			if i > 0 && strings.TrimSpace(n) != "" {
 				p := strings.TrimSuffix(lines[i-1], "\r")
 				if (strings.HasPrefix(p, " ") || strings.HasPrefix(p, "\t")) && strings.TrimSpace(p) != "" {
-					out = append(out, "text.blank-line-below-indented")
-					break
+					if !seen["text.blank-line-below-indented"] {
+						seen["text.blank-line-below-indented"] = true
+						out = append(out, "text.blank-line-below-indented")
+					}
 				}
 			}
 		}
